@@ -248,13 +248,14 @@ class C06:
                     if got != ("b", exp):
                         dis.append({"cmd": "GETRANGE g %d %d on %d bytes" % (s0, e0, len(val)), "impl": repr(got), "model": want})
         for cur in (None, 3):
-            for off, vlen in [(0, 0), (5, 0), (0, 1), (5, 2), (536870912, 1), (536870910, 3), (2 ** 62, 1), (2 ** 64 - 1, 1), (2 ** 64 - 1, 0)]:
+            for off, vlen in [(0, 0), (5, 0), (0, 1), (5, 2), (536870912, 1), (536870910, 3), (2 ** 62, 1), (2 ** 63 - 1, 0), (2 ** 63 - 1, 1), (2 ** 63, 0), (2 ** 64 - 1, 1), (2 ** 64 - 1, 0)]:
                 self.rep.evaluations += 1
                 c.cmd("DEL", "g")
                 if cur:
                     c.cmd("SET", "g", "abc")
                 got = c.cmd("SETRANGE", "g", str(off), "z" * vlen)
-                want = m.ask("setrange %s %d %d" % ("-" if cur is None else cur, off, vlen))
+                # the handler converts the offset text to i64 first (since 06ab2bf): what is above i64::MAX never reaches engine.rs setrange
+                want = "refused" if off > 2 ** 63 - 1 else m.ask("setrange %s %d %d" % ("-" if cur is None else cur, off, vlen))
                 cls = "refused" if got[0] == "e" else "ok %d" % got[1]
                 self.rep.nontrivial(("setrange", cur, want.split()[0]))
                 if cls != want:
